@@ -249,6 +249,8 @@ func genHistory(maxOps int, withCrash, allowTrick bool) func(t *rapid.T) Scenari
 			}
 			if withCrash && rapid.IntRange(0, 5).Draw(t, "crash") == 0 {
 				op.CrashK = rapid.IntRange(0, 4).Draw(t, "crashk")
+			} else if withCrash && (op.Kind == "setheight" || op.Kind == "save" || op.Kind == "resave") && rapid.IntRange(0, 3).Draw(t, "readfault") == 0 {
+				op.ReadFaults = rapid.IntRange(1, 2).Draw(t, "readfaults")
 			}
 			sc.Ops = append(sc.Ops, op)
 		}
@@ -399,9 +401,22 @@ func runHistory(sc Scenario, be backend) (v world.Verdict) {
 		}
 		var werr error
 		if isCrash {
+			if op.ReadFaults > 0 {
+				cdb.cur.FailGets(op.ReadFaults)
+			}
 			crashed = world.CatchCrash(func() { werr = exec(ctx, st, r) })
+			cdb.cur.FailGets(0)
 		} else {
 			werr = exec(ctx, st, r)
+		}
+		if !crashed && werr != nil && isCrash && op.ReadFaults > 0 {
+			// the write gave up on a read it could not perform: nothing may have changed
+			s.labels["write-refused-on-read-fault:"+r.kind] = true
+			if p := sweep(ctx, st, before, u); p != nil {
+				return world.Fail("C14/failed-write-changed-the-store/"+p.sig, "%s: the %s failed with %v (a read of the database failed), yet the store is no longer what it was before: %s", when, r.kind, werr, p.msg)
+			}
+			m = before
+			continue
 		}
 		if !crashed && werr != nil {
 			return world.Fail("C14/write-error", "%s: write failed on a healthy database: %v", when, werr)
